@@ -58,12 +58,9 @@ func evalPolIpld(line string) (out string, rd string) {
 // jsonNormal returns the node as it reads back from its own DAG-JSON text (sorted map keys), or "" when
 // the node has no faithful DAG-JSON form (floats, bytes, links, invalid UTF-8).
 func jsonNormal(text string) string {
-	if strings.ContainsAny(text, "dbk") {
-		return ""
-	}
 	n, err := parseNode(text)
-	if err != nil || !stringsValidUTF8(n) {
-		return ""
+	if err != nil || !stringsValidUTF8(n) || hasFloat(n) {
+		return "" // floats: go-ipld-prime prints one without fraction as an integer (see the C07 finding)
 	}
 	var buf bytes.Buffer
 	if err := ipld.EncodeStreaming(&buf, n, dagjson.Encode); err != nil {
@@ -79,7 +76,7 @@ func jsonNormal(text string) string {
 func str(s string) string { return "s" + hxsRaw(s) }
 
 func genStmtNode(c *ctx, depth int) string {
-	sels := []string{".", ".a", ".a?", ".a.?", ".a???", ".a..b", `.["k"]`, ".[0]", ".[1:]", ".[]", ".b[-1]?", ".?"}
+	sels := []string{".", ".a", ".a?", ".a.?", ".a???", ".a..b", `.["k"]`, ".[0]", ".[1:]", ".[]", ".b[-1]?", ".?", `.["a??"]`, `.["a?"]?`, `.["x??y"]??`}
 	k := c.rng.Intn(9)
 	if depth == 0 {
 		k = c.rng.Intn(3)
@@ -90,7 +87,7 @@ func genStmtNode(c *ctx, depth int) string {
 		op := []string{"==", ">", ">=", "<", "<="}[c.rng.Intn(5)]
 		return "l(" + str(op) + "," + sel + "," + randTree(c, 1) + ")"
 	case 2:
-		return "l(" + str("like") + "," + sel + "," + str([]string{"a*", "*", "\\*", "a\\", "a\\\\", ""}[c.rng.Intn(6)]) + ")"
+		return "l(" + str("like") + "," + sel + "," + str([]string{"a*", "*", "\\*", "a\\", "a\\\\", "", "**", "\\**", "a**b", "\\*\\*", "*\\**", "a\\*c"}[c.rng.Intn(12)]) + ")"
 	case 3:
 		return "l(" + str("not") + "," + genStmtNode(c, depth-1) + ")"
 	case 4, 5, 6:
@@ -195,6 +192,30 @@ func runPolIpldStream(c *ctx) error {
 		}
 	}
 	return nil
+}
+
+func hasFloat(n datamodel.Node) bool {
+	switch n.Kind() {
+	case datamodel.Kind_Float:
+		return true
+	case datamodel.Kind_List:
+		it := n.ListIterator()
+		for !it.Done() {
+			_, v, _ := it.Next()
+			if hasFloat(v) {
+				return true
+			}
+		}
+	case datamodel.Kind_Map:
+		it := n.MapIterator()
+		for !it.Done() {
+			_, v, _ := it.Next()
+			if hasFloat(v) {
+				return true
+			}
+		}
+	}
+	return false
 }
 
 // stringsValidUTF8 reports whether every string in the tree is valid UTF-8 (others cannot be written as JSON text).
